@@ -118,16 +118,21 @@ impl Scenario for TornWrite {
         let c: TornCase = from_value(case);
         let mut out = Vec::new();
         if c.only_k.is_none() {
-            // pin the crash point
-            let mut ctx = Ctx::default();
+            // pin the crash point: find the first k whose image opens although it is incomplete
             if let Ok(pm) = sut::build(&c.a) {
                 let pol = Policy { rd: Xfer::Full, wr: Xfer::Full, pend: c.pend, seed: c.seed };
-                let mut d = SimDisk::new(Vec::new(), &pol).recording(false);
+                let mut d = SimDisk::new(Vec::new(), &pol).recording(true);
+                pmtiles2::verif::set_scramble_seed(Some(c.seed));
                 let _ = sut::save(pm, &mut d, c.face);
-                ctx.absorb(&d);
-                let n = d.take_log().len() as u64;
-                for k in (0..=n).rev() {
-                    out.push(to_value(&TornCase { only_k: Some(k), ..c.clone() }));
+                pmtiles2::verif::set_scramble_seed(None);
+                let complete = d.image();
+                let log = d.take_log();
+                for k in 0..=log.len() {
+                    let img = image_after(&log, k);
+                    if img != complete && pmtiles2::PMTiles::from_bytes(&img[..]).is_ok() {
+                        out.push(to_value(&TornCase { only_k: Some(k as u64), ..c.clone() }));
+                        break;
+                    }
                 }
             }
             return out;
@@ -160,6 +165,60 @@ pub struct StartCase {
 }
 
 pub struct StartPos;
+
+/// util::write_directories started at P must produce what it produces at 0, shifted by P.
+#[derive(Clone, Debug, Serialize, Deserialize)]
+pub struct StartDirsCase {
+    pub n: u32,
+    pub seed: u64,
+    pub ic: u8,
+    pub start: Option<u32>,
+    pub p: u32,
+    pub face: Face,
+    pub pol: Policy,
+}
+
+pub struct StartPosDirs;
+
+impl Scenario for StartPosDirs {
+    fn name(&self) -> &'static str {
+        "start-position-directories"
+    }
+    fn rule(&self) -> String {
+        "util::write_directories / write_directories_async (the step of the archive writer that re-seeks to the start of the root directory) on a stream pre-filled with P sentinel bytes and positioned at P, with entry lists that spill and small initial leaf sizes that force re-seeks; compared with the same call at position 0; distinct = distinct serialized cases; non-trivial = P > 0".into()
+    }
+    fn generate(&self, rng: &mut Rng, _tier: Tier, _run: u64) -> Value {
+        let face = Face::draw(rng);
+        to_value(&StartDirsCase {
+            n: *rng.pick(&[0u32, 5, 300, 1900, 2300, 2600, 3000]),
+            seed: rng.below(16),
+            ic: *rng.pick(&[1u8, 1, 2, 4, 3]),
+            start: *rng.pick(&[None, Some(1), Some(2), Some(7), Some(64), Some(4096)]),
+            p: *rng.pick(&[1u32, 10, 127, 128, 4096, 10_000, 54_321]),
+            face,
+            pol: Policy::draw(rng, face == Face::Async),
+        })
+    }
+    fn execute(&self, case: &Value, ctx: &mut Ctx) -> V<()> {
+        use crate::scen_stream::{perform, Call, Out};
+        let c: StartDirsCase = from_value(case);
+        ctx.evals += 1;
+        ctx.sig(case_sig(case));
+        let at0 = perform(&Call::WriteDirs { n: c.n, seed: c.seed, ic: c.ic, start: c.start, pos: 0 }, c.face, &Policy::plain(), &mut Ctx::default(), "C18")?;
+        let atp = perform(&Call::WriteDirs { n: c.n, seed: c.seed, ic: c.ic, start: c.start, pos: c.p }, c.face, &c.pol, ctx, "C18")?;
+        match (&at0, &atp) {
+            (Out::Bytes(b0, l0), Out::Bytes(bp, lp)) => {
+                let p = c.p as usize;
+                ensure!(bp.len() >= p && bp[..p].iter().all(|b| *b == 0x5A), "C18:bytes-before-start-clobbered", "write_directories started at position {p} modified bytes before it");
+                ensure!(bp[p..] == b0[..], "C18:not-position-independent", "root directory written at position {p} ({} bytes) differs from the one written at position 0 ({} bytes)", bp.len() - p, b0.len());
+                ensure!(lp == l0, "C18:not-position-independent", "leaf section returned at position {p} differs from the one at position 0");
+            }
+            (Out::Bytes(..), other) => vio!("C18:save-failed", "write_directories succeeds at position 0 but at position {}: {:?}", c.p, other),
+            (other, _) => vio!("C18:save-failed", "write_directories on a fault-free stream at position 0 does not succeed: {:?}", other),
+        }
+        Ok(())
+    }
+}
 
 impl Scenario for StartPos {
     fn name(&self) -> &'static str {
@@ -353,12 +412,34 @@ impl Scenario for Canonical {
         let mut detours_left = c.detours;
         for (i, t) in final_tiles.iter().enumerate() {
             if c.mid_save == Some(i as u32) {
+                // an extra tile below every final id: stored first in the intermediate archive,
+                // removed again after the reopen (a detour that also sets up the fault below)
+                let min_before = final_tiles[..i].iter().map(|t| t.id).min();
+                let extra = match (min_before, model.tiles.keys().next()) {
+                    (Some(_), Some(&m)) if m > 0 && c.detours > 0 => Some(m - 1),
+                    _ => None,
+                };
+                if let Some(e) = extra {
+                    let _ = pm.add_tile(e, vec![0xE7u8; 7]);
+                }
                 let img = save_bytes(pm, if r.chance(50) { Face::Sync } else { Face::Async }, &c.sched.w, Some(r.next_u64()), ctx)?;
-                pm = match sut::open(SimDisk::new(img, &c.sched.r), Face::Sync)? {
+                let rdisk = SimDisk::new(img, &c.sched.r);
+                let rh = rdisk.clone();
+                pm = match sut::open(rdisk, Face::Sync)? {
                     Ok(p) => p,
                     Err(e) => vio!("C16:reopen-failed", "intermediate archive does not open: {e}"),
                 };
                 ctx.bump("probe_histories_with_reader_backed_tiles", 1);
+                if let (Some(e), Some(s)) = (extra, min_before) {
+                    // lookups in the middle of the history, one of them hit by a transient
+                    // stream failure; they must leave no trace in what is written later
+                    let _ = sut::get(&mut pm, e, Face::Sync)?;
+                    rh.set_fault(crate::disk::Fault::Transient { at: rh.nops() + 1 + r.below(2), n: 1 });
+                    let _ = sut::get(&mut pm, s, Face::Sync)?;
+                    rh.set_fault(crate::disk::Fault::None);
+                    pm.remove_tile(e);
+                    ctx.bump("fired_transient_timeouts", 1);
+                }
             }
             if detours_left > 0 && r.chance(40) {
                 detours_left -= 1;
